@@ -540,6 +540,55 @@ func resolveSendArgs(p *Program, fn *ssa.Function, method, args ssa.Value, pos t
 	if s, ok := stringConstOf(method); ok {
 		return []resolvedSend{{fn, s, args, pos}}
 	}
+	// the method name looked up in a package-level table keyed by a parameter:
+	// resolve the key at every call site and read the table
+	if g := dispatchTable(method); g != nil {
+		var keyParam *ssa.Parameter
+		v := method
+		for i := 0; i < 3; i++ {
+			switch x := v.(type) {
+			case *ssa.Extract:
+				v = x.Tuple
+				continue
+			case *ssa.Lookup:
+				keyParam, _ = x.Index.(*ssa.Parameter)
+			}
+			break
+		}
+		table := p.tableConsts(g)
+		if keyParam != nil && len(table) > 0 {
+			ki, ai := -1, -1
+			for i, q := range fn.Params {
+				if q == keyParam {
+					ki = i
+				}
+				if ssa.Value(q) == args {
+					ai = i
+				}
+			}
+			var out []resolvedSend
+			for _, s := range getCallIndex(p).sites[fn] {
+				cargs := s.instr.(ssa.CallInstruction).Common().Args
+				if ki < 0 || ki >= len(cargs) {
+					continue
+				}
+				kc, isC := cargs[ki].(*ssa.Const)
+				if !isC || kc.Value == nil {
+					continue
+				}
+				mc := table[kc.Value.ExactString()]
+				if mc == nil {
+					continue
+				}
+				a := args
+				if ai >= 0 && ai < len(cargs) {
+					a = cargs[ai]
+				}
+				out = append(out, resolveSendArgs(p, s.caller, mc, a, s.instr.Pos(), depth+1)...)
+			}
+			return out
+		}
+	}
 	prm, ok := method.(*ssa.Parameter)
 	if !ok {
 		return nil
